@@ -267,6 +267,25 @@ def r11_3_mapping(chk):
                 call_arg(rets[0], 1, "dtype") == A(SELF, "_dtype"), "R11.3", "fields-filled-from-mapping",
                 "the chunk (of the wrapper's dtype) is not filled field by field by iterating the channel mapping "
                 "(field <- rows of the data set the mapping names for it)", lc.func.where)
+    # every implementation that fills a chunk reads the rows of the data set itself: the only conversion on the way
+    # into the chunk is numpy's assignment into the chunk field, identical for all source kinds - never a converting
+    # view made by the source library (h5py's Dataset.astype saturates where numpy wraps, ...)
+    for f in [c.methods["load_chunk"] for c in [base] + ix.subclasses(base) if "load_chunk" in c.methods]:
+        fs = chk.summary(f)
+        frets = [t for _, t, _ in fs.returns]
+        for e in fs.stores(kind="store_sub"):
+            if e.base not in frets:
+                continue
+            for _, alt in alternatives(e.value):
+                for y in subterms(alt):
+                    if y[0] != "sub" or not contains(y[1], DS) or y[1] == DS:
+                        continue
+                    for _c, b in alternatives(y[1]):
+                        plain = b[0] == "sub" and b[1] == DS
+                        chk.require(plain, "R11.3", f"rows-read-from-the-data-set-itself:{f.short}",
+                                    f"{f.short} reads the rows through `{pp(b)[:70]}` instead of the data set itself: a "
+                                    f"conversion made by the source library is not the one numpy applies to the other "
+                                    f"source kinds", f.where, nontrivial=False)
     fr = ix.get_class("FrameItem")
     p = fr.lookup("channel_name_mapping")
     ps = chk.summary(p)
